@@ -39,6 +39,10 @@ func Bytes(b []byte) string {
 		}
 		lit = append(lit, strconv.Itoa(int(b[i])))
 		i++
+		if len(lit) >= 1000 {
+			// very long list literals overflow the parser's stack
+			flush()
+		}
 	}
 	flush()
 	if len(parts) == 1 {
